@@ -68,6 +68,12 @@ pub axiom fn ax_obeys()
         forall|a: f64, b: f64| (#[trigger] fcmp(a, b) == Some(core::cmp::Ordering::Equal)) == (fcmp(b, a) == Some(core::cmp::Ordering::Equal)),
         forall|a: f64, b: f64| (#[trigger] fcmp(a, b) is None) == (fcmp(b, a) is None),
         forall|a: f64, b: f64| #[trigger] feq(a, b) == (fcmp(a, b) == Some(core::cmp::Ordering::Equal)),
+        // max / min are commutative as far as comparisons can tell (the two results are identical, or +0 / -0,
+        // or both NaN): discharged for ALL triples by the loop-free Kani harness `ieee_max_min_commute`
+        forall|a: f64, b: f64, c: f64| #[trigger] fcmp(fmaxf(a, b), c) == fcmp(fmaxf(b, a), c),
+        forall|a: f64, b: f64, c: f64| #[trigger] fcmp(c, fmaxf(a, b)) == fcmp(c, fmaxf(b, a)),
+        forall|a: f64, b: f64, c: f64| #[trigger] fcmp(fminf(a, b), c) == fcmp(fminf(b, a), c),
+        forall|a: f64, b: f64, c: f64| #[trigger] fcmp(c, fminf(a, b)) == fcmp(c, fminf(b, a)),
         <f64 as AddSpec<f64>>::obeys_add_spec(),
         <f64 as AddSpec<&f64>>::obeys_add_spec(),
         <&f64 as AddSpec<f64>>::obeys_add_spec(),
@@ -193,6 +199,35 @@ pub fn __as_f64<T: ToF64>(x: T) -> (r: f64) ensures r == x.to_f64_spec() { x.__t
 
 // R13: identity on f64 (see rule R13 of the extractor)
 pub fn __idf(x: f64) -> (r: f64) ensures r == x { x }
+
+// ---- prelude fragment: ideal.rs ----
+// Floating point, layer 2 ("idealised real" mode of DESIGN.md 3.2): machine arithmetic treated as
+// mathematical.  rv maps a float to the real it denotes; rounding, overflow, NaN and signed zero are
+// ignored.  Used only where the property is a statement of real arithmetic.
+pub uninterp spec fn rv(x: f64) -> real;
+pub broadcast axiom fn ax_rv_add(a: f64, b: f64) ensures rv(#[trigger] fadd(a, b)) == rv(a) + rv(b);
+pub broadcast axiom fn ax_rv_sub(a: f64, b: f64) ensures rv(#[trigger] fsub(a, b)) == rv(a) - rv(b);
+pub broadcast axiom fn ax_rv_mul(a: f64, b: f64) ensures rv(#[trigger] fmul(a, b)) == rv(a) * rv(b);
+pub broadcast axiom fn ax_rv_div(a: f64, b: f64) ensures rv(b) != 0real ==> rv(#[trigger] fdiv(a, b)) == rv(a) / rv(b);
+pub broadcast axiom fn ax_rv_neg(a: f64) ensures rv(#[trigger] fneg(a)) == 0real - rv(a);
+pub broadcast axiom fn ax_rv_cmp(a: f64, b: f64)
+    ensures #[trigger] fcmp(a, b) == (if rv(a) < rv(b) { Some(core::cmp::Ordering::Less) }
+        else if rv(a) == rv(b) { Some(core::cmp::Ordering::Equal) } else { Some(core::cmp::Ordering::Greater) });
+pub broadcast axiom fn ax_rv_eq(a: f64, b: f64) ensures #[trigger] feq(a, b) == (rv(a) == rv(b));
+pub broadcast axiom fn ax_rv_max(a: f64, b: f64) ensures rv(#[trigger] fmaxf(a, b)) == (if rv(a) >= rv(b) { rv(a) } else { rv(b) });
+pub broadcast axiom fn ax_rv_min(a: f64, b: f64) ensures rv(#[trigger] fminf(a, b)) == (if rv(a) <= rv(b) { rv(a) } else { rv(b) });
+// (idealised) powf denotes a function of the real values of its arguments
+pub uninterp spec fn rpow(x: real, y: real) -> real;
+pub broadcast axiom fn ax_rv_powf(a: f64, b: f64) ensures rv(#[trigger] fpowf(a, b)) == rpow(rv(a), rv(b));
+pub axiom fn ax_rv_lits()
+    ensures rv(0.0f64) == 0real, rv(1.0f64) == 1real, rv(2.0f64) == 2real, rv(0.5f64) * 2real == 1real;
+pub broadcast group ideal {
+    ax_rv_add, ax_rv_sub, ax_rv_mul, ax_rv_div, ax_rv_neg, ax_rv_cmp, ax_rv_eq, ax_rv_max, ax_rv_min, ax_rv_powf
+}
+// (idealised) integer-to-float casts are exact
+pub broadcast axiom fn ax_rv_u64(n: u64) ensures rv(#[trigger] u64_to_f64(n)) == n as real;
+pub broadcast axiom fn ax_rv_usize(n: usize) ensures rv(#[trigger] usize_to_f64(n)) == n as real;
+pub broadcast group ideal_casts { ax_rv_u64, ax_rv_usize }
 
 // ---- extracted from src/lib.rs: enum PlayerNum ----
 #[derive(Copy, Clone, PartialEq, Eq, Structural)]
@@ -372,8 +407,9 @@ pub open spec fn options_ok(out: Output, args: Args, game: Game) -> bool {
 pub open spec fn utilities_ok(out: Output, args: Args, game: Game, sum: f64) -> bool {
     let inf = info_spec(chosen_of(args, game));
     // each player's OWN payoff: the zero-sum utility plus half the constant the payoffs add up to
-    out.player_one_utility == fadd(util_of(inf, PlayerNum::One), sum)
-    && out.player_two_utility == fadd(util_of(inf, PlayerNum::Two), sum)
+    // (stated on the real values, so that `sum + u` and `u + sum` are the same thing)
+    rv(out.player_one_utility) == rv(util_of(inf, PlayerNum::One)) + rv(sum)
+    && rv(out.player_two_utility) == rv(util_of(inf, PlayerNum::Two)) + rv(sum)
 }
 #[verifier::external_body]
 pub fn __abs_print(out: &Output, args: &Args, game: &Game, sum: f64)
@@ -403,8 +439,8 @@ pub fn into_params(self) -> (r: RegretParams)
 
 // ---- extracted from src/main.rs: fn main ----
 pub fn cli_main() {
-broadcast use fl;
-proof { ax_obeys(); }
+broadcast use fl; broadcast use ideal;
+proof { ax_obeys(); ax_rv_lits(); }
 
     let args = __abs_parse();
     let (game, sum) = __abs_read(&args);
@@ -464,7 +500,7 @@ p.borrow() > &0.0
 pub proof fn __canary_must_fail()
     ensures false, // @ob __canary
 {
-    broadcast use fl; ax_obeys();
+    broadcast use fl; broadcast use ideal; ax_obeys(); ax_rv_lits();
 }
 
 } // verus!
